@@ -121,7 +121,11 @@ def rule_fallback(ctx):
                 ctx.ob(f"{name}: handler for {'/'.join(ts)} sends the ERROR it built", bool(asg) and sent == norm.text(asg[0].targets[0]), f"sends {sent}", fn.loc(h.ast))
         ctx.ob(f"{name}: handlers cover SerializationError and PayloadExceededError", HANDLED <= caught, f"caught {sorted(caught)}", fn.loc())
         # record removed first
-        dels = [n for n in g.stmt_nodes() if n.kind == "stmt" and isinstance(n.ast, ast.Delete) and norm.text(n.ast.targets[0]) == "self._invocations[msg.request]"]
+        # `del table[id]` or the equivalent `table.pop(id)` without a default (both raise KeyError for an unknown id, both remove the entry)
+        dels = [n for n in g.stmt_nodes() if n.kind == "stmt" and (
+            (isinstance(n.ast, ast.Delete) and norm.text(n.ast.targets[0]) == "self._invocations[msg.request]") or
+            (isinstance(n.ast, (ast.Expr, ast.Assign)) and isinstance(n.ast.value, ast.Call) and norm.text(n.ast.value.func) == "self._invocations.pop"
+             and [norm.text(a_) for a_ in n.ast.value.args] == ["msg.request"] and not n.ast.value.keywords))]
         ok = len(dels) == 1 and all(g.always_preceded_by(n, lambda x: x is dels[0]) for n, c in sends)
         ctx.ob(f"{name}: invocation record removed before any reply", ok, "record not deleted first", fn.loc())
 
@@ -322,8 +326,13 @@ def rule_identity(ctx):
             changed = False
             need = {y.id for st_ in prep for y in ast.walk(st_) if isinstance(y, ast.Name) and isinstance(y.ctx, ast.Load)}
             for st_ in blk[:upto]:
-                if st_ not in prep and isinstance(st_, ast.Assign) and all(isinstance(t_, ast.Name) for t_ in st_.targets) and any(t_.id in need for t_ in st_.targets) \
-                        and not any(isinstance(y, ast.Call) for y in ast.walk(st_.value)):
+                # a plain assignment, or an if/else of plain assignments (a conditional expression in canonical form), that defines a needed local
+                # without calling anything but the tuple / list / dict constructors
+                stores_ = {y.id for y in ast.walk(st_) if isinstance(y, ast.Name) and isinstance(y.ctx, ast.Store)}
+                plain_ = isinstance(st_, ast.Assign) or (isinstance(st_, ast.If) and all(isinstance(z, ast.Assign) for z in st_.body + st_.orelse))
+                calls_ = [y for y in ast.walk(st_) if isinstance(y, ast.Call)]
+                if st_ not in prep and plain_ and stores_ & need and all(isinstance(c_.func, ast.Name) and c_.func.id in ("tuple", "list", "dict") for c_ in calls_) \
+                        and not any(isinstance(y, (ast.Attribute, ast.Subscript)) and isinstance(y.ctx, ast.Store) for y in ast.walk(st_)):
                     prep.append(st_)
                     changed = True
         prep.sort(key=lambda st_: blk.index(st_))
